@@ -232,7 +232,14 @@ pub fn gen_script(rng: &mut Rng, ctx: &mut Ctx, depth: u32, is_reply: bool) -> S
             acts.push(q);
         } else if r < 88 && depth > 0 {
             ctx.sub_id += 1;
-            let id = ctx.sub_id;
+            // boundary ids, each at most once per case so that ids stay unique: 0 and u64::MAX
+            let id = if ctx.sub_id % 1000 == 3 && rng.chance(1, 2) {
+                0
+            } else if ctx.sub_id % 1000 == 5 && rng.chance(1, 2) {
+                u64::MAX
+            } else {
+                ctx.sub_id
+            };
             let mode = rng.pick(&["always", "error", "success", "never"]);
             let reply = gen_script(rng, ctx, depth - 1, true);
             let m = gen_msg(rng, ctx, depth - 1);
